@@ -63,35 +63,47 @@ GotOkOK(H, g) ==
 \* flight: an event whose publication had not been acknowledged when the previous REQ of (c, s) was sent may be such a straggler
 \* and is judged by neither instance's stored phase.
 PrevReqs(H, R) == {q \in Reqs(H, H[R].c, H[R].m.sub) : q < R}
-MayBeStale(H, g, R) == \E R0 \in PrevReqs(H, R) : \E P \in Pubs(H) : P < g /\ H[P].m.id = H[g].m.id /\ (P > R0 \/ AckPos(H, H[g].m.id) > R0)
-StoredBefore(H, g, R) == {q \in Before(g) : q > R /\ Is(H[q], "got", "SEVENT") /\ H[q].c = H[g].c /\ H[q].m.sub = H[g].m.sub
-                                              /\ ~MayBeStale(H, q, R)}
+MinOf(S) == CHOOSE q \in S : \A z \in S : q <= z
+\* per-step tables (computed once per judged step)
+IdsOf(H)   == {H[q].m.id : q \in Pubs(H)}
+AckTab(H)  == [id \in IdsOf(H) |-> AckPos(H, id)]
+PubTab(H)  == [id \in IdsOf(H) |-> {q \in Pubs(H) : H[q].m.id = id}]
+\* (the earliest previous instance is the weakest witness)
+StaleW(H, q, R0, A, PT) == LET id == H[q].m.id IN
+                           id \in DOMAIN PT /\ \E P \in PT[id] : P < q /\ (P > R0 \/ A[id] > R0)
+MayBeStale(H, g, R) == PrevReqs(H, R) # {} /\ StaleW(H, g, MinOf(PrevReqs(H, R)), AckTab(H), PubTab(H))
 
 GotEventOK(H, g) ==
-  LET R == ReqOf(H, g) IN
+  LET R == ReqOf(H, g)   A == AckTab(H)   PT == PubTab(H)   id == H[g].m.id IN
   /\ R > 0
-  /\ \E P \in Pubs(H) : P < g /\ H[P].m.id = H[g].m.id /\ H[P].m.ev = H[g].m.ev       \* published, unchanged
-  /\ IF EoseOf(H, R) > g
+  /\ id \in DOMAIN PT /\ \E P \in PT[id] : P < g /\ H[P].m.ev = H[g].m.ev                  \* published, unchanged
+  /\ LET prev  == PrevReqs(H, R)
+         R0    == IF prev = {} THEN Inf ELSE MinOf(prev)
+         Stale(q) == prev # {} /\ StaleW(H, q, R0, A, PT)
+         eose  == EoseOf(H, R)
+     IN
+     IF eose > g
      THEN \* stored phase (the client has not closed / re-issued: then nothing is claimed)
-          (CloseOf(H, R) > g /\ ~MayBeStale(H, g, R)) =>
-            LET fs == H[R].m.fs   pre == StoredBefore(H, g, R) IN
+          (CloseOf(H, R) > g /\ ~Stale(g)) =>
+            LET fs == H[R].m.fs
+                pre == {q \in Before(g) : q > R /\ Is(H[q], "got", "SEVENT") /\ H[q].c = H[g].c /\ H[q].m.sub = H[g].m.sub /\ ~Stale(q)} IN
             /\ MatchesAny(H[g].m.ev, fs)
-            /\ \A q \in pre : H[q].m.id # H[g].m.id
+            /\ \A q \in pre : H[q].m.id # id
             /\ \A q \in pre : H[q].m.ev.ts >= H[g].m.ev.ts
             /\ (Len(fs) = 1 /\ fs[1].limit.p) => Cardinality(pre) + 1 <= fs[1].limit.v
      ELSE \* live phase
           /\ MatchesAny(H[g].m.ev, H[R].m.fs)
           /\ \* once per publication (the router re-broadcasts an event that is submitted again)
-             Cardinality({q \in 1..g : q > EoseOf(H, R) /\ Is(H[q], "got", "SEVENT") /\ H[q].c = H[g].c
-                                         /\ H[q].m.sub = H[g].m.sub /\ H[q].m.id = H[g].m.id})
-               <= Cardinality({P \in Pubs(H) : P < g /\ H[P].m.id = H[g].m.id})
+             Cardinality({q \in 1..g : q > eose /\ Is(H[q], "got", "SEVENT") /\ H[q].c = H[g].c
+                                         /\ H[q].m.sub = H[g].m.sub /\ H[q].m.id = id})
+               <= Cardinality({P \in PT[id] : P < g})
           /\ \* not an event that was already acknowledged before the REQ was sent (that one is stored, not live)
-             ~(AckPos(H, H[g].m.id) < R /\ Cardinality({q \in Pubs(H) : q < g /\ H[q].m.id = H[g].m.id}) = 1)
+             ~(A[id] < R /\ Cardinality({q \in PT[id] : q < g}) = 1)
 
 GotEoseOK(H, g) ==
   LET c == H[g].c   s == H[g].m.sub IN
   /\ Cardinality({q \in Eoses(H, c, s) : q <= g}) <= Cardinality({q \in Reqs(H, c, s) : q < g})
-  /\ LET R == ReqOf(H, g) IN
+  /\ LET R == ReqOf(H, g)   A == AckTab(H)   PT == PubTab(H) IN
      \* completeness of the stored phase for filters without limit: everything acknowledged before the REQ was sent
      \* ... claimed only for the first use of the subscription id on the connection and when no
      \* publication is in flight during the stored phase: the merge forwards in non-increasing
@@ -100,9 +112,9 @@ GotEoseOK(H, g) ==
      \* stored events -- the listed properties (C08) claim order, not completeness
      (R > 0 /\ CloseOf(H, R) > g /\ (\A i \in DOMAIN H[R].m.fs : ~H[R].m.fs[i].limit.p)
         /\ PrevReqs(H, R) = {}
-        /\ \A P \in Pubs(H) : P < g => AckPos(H, H[P].m.id) < R) =>
+        /\ \A id \in IdsOf(H) : (\E P \in PT[id] : P < g) => A[id] < R) =>
         \A P \in Pubs(H) :
-          (P = FirstPub(H, H[P].m.id) /\ AckPos(H, H[P].m.id) < R /\ MatchesAny(H[P].m.ev, H[R].m.fs))
+          (P = MinOf(PT[H[P].m.id]) /\ A[H[P].m.id] < R /\ MatchesAny(H[P].m.ev, H[R].m.fs))
             => \E q \in Before(g) : q > R /\ Is(H[q], "got", "SEVENT") /\ H[q].c = H[g].c /\ H[q].m.sub = H[g].m.sub /\ H[q].m.id = H[P].m.id
 
 StepOK(H) ==
@@ -120,9 +132,12 @@ QuiesceOK(H) ==
   /\ \A R \in {q \in DOMAIN H : Is(H[q], "snd", "REQ")} : EoseOf(H, R) < Inf
   /\ \A P \in Pubs(H) : \E q \in DOMAIN H : q > P /\ Is(H[q], "got", "OK") /\ H[q].c = H[P].c /\ H[q].m.id = H[P].m.id
   \* live delivery: confirmed before the publication, still open after its acknowledgement
-  /\ \A R \in {q \in DOMAIN H : Is(H[q], "snd", "REQ")} : \A P \in Pubs(H) :
-       (/\ P = FirstPub(H, H[P].m.id) /\ H[P].m.ev.kind # DrainKind
-        /\ EoseOf(H, R) < P /\ AckPos(H, H[P].m.id) < Inf /\ CloseOf(H, R) > AckPos(H, H[P].m.id)
+  /\ LET A == AckTab(H)   PT == PubTab(H)
+         RS == {q \in DOMAIN H : Is(H[q], "snd", "REQ")}
+         EO == [R \in RS |-> EoseOf(H, R)]   CO == [R \in RS |-> CloseOf(H, R)]
+         FP == {P \in Pubs(H) : P = MinOf(PT[H[P].m.id]) /\ H[P].m.ev.kind # DrainKind /\ A[H[P].m.id] < Inf}
+     IN \A R \in RS : \A P \in FP :
+       (/\ EO[R] < P /\ CO[R] > A[H[P].m.id]
         /\ MatchesAny(H[P].m.ev, H[R].m.fs))
        => \E q \in DOMAIN H : q > P /\ Is(H[q], "got", "SEVENT") /\ H[q].c = H[R].c /\ H[q].m.sub = H[R].m.sub /\ H[q].m.id = H[P].m.id
 =============================================================================
